@@ -43,6 +43,8 @@ Progs == {NPath([i \in 1..Len(sq) |-> StepOf(sq[i])], kp) : sq \in StepSeqs, kp 
 
 Init == /\ \E sq \in StepSeqs, kp \in BOOLEAN, d \in Docs :
               /\ (UsesStar(sq) => MaxMembers(d) <= 1)
+              \* a path of one step exists in the port only for a name, or when [] is attached
+              /\ (Len(sq) > 1 \/ kp \/ sq[1] \in {"a", "b", "`a`"})
               /\ case = MkCaseB(NPath([i \in 1..Len(sq) |-> StepOf(sq[i])], kp), d,
                                 IF \E i \in 1..Len(sq) : sq[i] = "$v" THEN << <<"v", d>> >> ELSE <<>>)
         /\ out = Pending
